@@ -131,7 +131,7 @@ def _gen_op(rng, cfg):
     if kind == "shell":
         return ["shell", rng.randrange(1000), rng.randrange(1000), rng.random() < 0.6]
     if kind == "mol":
-        return ["mol", rng.randrange(1000), rng.randint(1, 3), rng.random() < 0.5]
+        return ["mol", rng.randrange(1000), rng.choice([1, 2, 2, 3, 3, 4, 5]), rng.random() < 0.5]  # (Becke weights switch to chunked evaluation at 4 atoms)
     if kind == "molctor":
         how = rng.choice(["size", "pruned", "preset"])
         nat = rng.randint(1, 3)
